@@ -81,4 +81,63 @@ def hydLoop (m : MolOut) : List (Nat × Nat × Option Nat × Int × Bool × Opti
 
 def molHydrogens (m : MolOut) : Except Err (List (Nat × Option Nat × Bool)) := hydLoop m m.atoms
 
+/-! ## the keyword arguments of `smiles()` that only act inside the hydrogen loop -/
+
+/-- `keep_implicit`, `ignore_aromatic_radicals`, `ignore_carbon_radicals` as `smiles()` forwards them to
+    `create_molecule` / `create_reaction` (defaults of `smiles()`) -/
+structure HOpts where
+  keepImplicit : Bool := false
+  ignoreAromaticRadicals : Bool := true
+  ignoreCarbonRadicals : Bool := false
+  deriving Repr, DecidableEq, Inhabited
+
+/-- the per-atom branch with the options; third component: the atom was appended to `radicalized` -/
+def assignOptCore (o : HOpts) (calcF : Ctx → Option Nat) (checkF : Ctx → Nat → Bool) (c : Ctx) (hyd : Option Nat) :
+    Option Nat × Bool × Bool :=
+  match hyd with
+  | none => (calcF c, c.radical, false)
+  | some h =>
+    if o.keepImplicit then (some h, c.radical, false)
+    else
+    match calcF c with
+    | none =>
+      if isAromaticAtom c then
+        (if !o.ignoreAromaticRadicals && aromRadicalCase c h then (some h, true, true) else (some h, c.radical, false))
+      else if !c.radical then
+        (if checkF { c with radical := true } h then (some h, true, true) else (none, false, false))
+      else (none, true, false)
+    | some k =>
+      if h == k then (some k, c.radical, false)
+      else if isAromaticAtom c then
+        (if aromRadicalCase c h then (some 0, true, true) else (some k, c.radical, false))
+      else if checkF c h then (some h, c.radical, false)
+      else if !c.radical then
+        (if checkF { c with radical := true } h then (some h, true, true) else (some k, false, false))
+      else (some k, true, false)
+
+/-- … followed by the `ignore_carbon_radicals` pass over `radicalized` (`a == C`: radical off, one more hydrogen) -/
+def assignOpt (o : HOpts) (calcF : Ctx → Option Nat) (checkF : Ctx → Nat → Bool) (c : Ctx) (hyd : Option Nat) :
+    Option Nat × Bool :=
+  let r := assignOptCore o calcF checkF c hyd
+  if o.ignoreCarbonRadicals && r.2.2 && c.z == 6 then (r.1.map (· + 1), false) else (r.1, r.2.1)
+
+def assignHOpt (o : HOpts) (c : Ctx) (hyd : Option Nat) : Option (Option Nat × Bool) :=
+  (tableOf c.z).map fun t => assignOpt o (calcWith t) (checkWith t) c hyd
+
+def hydLoopOpt (o : HOpts) (m : MolOut) : List (Nat × Nat × Option Nat × Int × Bool × Option Nat) →
+    Except Err (List (Nat × Option Nat × Bool))
+  | [] => .ok []
+  | a :: tl =>
+    match hCtx m a with
+    | none => .error (.crash "KeyError")
+    | some c =>
+      match assignHOpt o c a.2.2.2.2.2 with
+      | none => .error (.crash "ValenceTable")
+      | some r =>
+        match hydLoopOpt o m tl with
+        | .error e => .error e
+        | .ok rest => .ok ((a.1, r.1, r.2) :: rest)
+
+def molHydrogensOpt (o : HOpts) (m : MolOut) : Except Err (List (Nat × Option Nat × Bool)) := hydLoopOpt o m m.atoms
+
 end ChythonModel.Model.C03
